@@ -101,6 +101,14 @@ theorem runErrorsOf_set (c : Ctx) (s : St) (xs : List Val) :
     runErrorsOf { s with ctx := Ctx.set c "runErrors" (.list xs) } = xs := by
   unfold runErrorsOf; simp only [ctx_get_set_self]; rfl
 
+theorem customError_logEscape (d d' : StepDef) (s1 : St) (e : ExcV) (h : Bool) :
+    customError d (logEscape d' s1 e h) = customError d s1 := by
+  unfold customError fmtV; rw [logEscape_ctx]
+
+theorem runErrorsOf_logEscape (d : StepDef) (s1 : St) (e : ExcV) (h : Bool) :
+    runErrorsOf (logEscape d s1 e h) = runErrorsOf s1 := by
+  unfold runErrorsOf; rw [logEscape_ctx]
+
 theorem runErrorsOf_congr (a b : St) (h : Ctx.get? b.ctx "runErrors" = Ctx.get? a.ctx "runErrors") :
     runErrorsOf b = runErrorsOf a := by unfold runErrorsOf; rw [h]
 
